@@ -376,6 +376,13 @@ def oracle_c01(w: World) -> Optional[str]:
                 sub = subtree(n)[1:]
                 if not same(desc, sub):
                     return f"{w.label(n)}.descendants = {w.labels(desc)}, expected {w.labels(sub)}"
+    # every live object is a root or a child of its parent: one that names a parent without being among its children (left behind
+    # half-linked by a call that gave up midway) is in no tree at all and was never visited above
+    for o in objs:
+        if id(o) not in seen and not getattr(o, "_decomposed", False):
+            p = o.parent
+            if p is not None and not any(c is o for c in getattr(p, "contents", [])):
+                return f"{w.label(o)}.parent is {w.label(p)} but it is not among {w.label(p)}'s children"
     return None
 
 
@@ -677,6 +684,10 @@ def gen_op(rng, w: World, stats) -> Optional[str]:
         if k == "in" and tags:
             l, o = rng.choice(tags)
             pos = rng.randint(0, len(o.contents) + 1)
+            if rng.random() < 0.25:
+                # any Python integer is a position: negative ones count from the end as in list.insert (clamped at the front)
+                pos = rng.randint(-(len(o.contents) + 2), -1)
+                stats["pos:negative"] += 1
             return f"in:{l}:{pos}:{','.join(pick_args(o, nargs()))}"
         if k == "et" and len(tags) >= 1:
             l, o = rng.choice(tags)
